@@ -32,7 +32,7 @@ reg("C01", "model_checking",
     "Trusts Kani/CBMC; whole-message runs with arbitrary decimal floats are outside the bound (covered per field by C08/C11); dispatch/number mapping is C14.",
     BMC + " of msgNNNN::encode/decode round trips through the hook re-exports", "3/C01")
 reg("C02", "model_checking",
-    "Bounded: every decoder on every payload of a stated concrete length (all field bit patterns; list counts fixed per harness to 0,1,2 and to a value larger than the body; MSM masks from six concrete shapes incl. 64 and 72 cells; 1059/1065 with recognised and unrecognised signal ids): no panic, no arithmetic overflow (dev profile with overflow checks = the stricter profile), floats finite, m == m.",
+    "Bounded: every decoder on every payload of a stated concrete length (all field bit patterns; list counts fixed per harness to 0,1,2 and to a value larger than the body; MSM satellite/signal/cell masks from eight concrete shapes incl. 64 and 72 cells (quick tier: the 72-cell shape for four types, the others thorough); 1059/1065 with recognised and unrecognised signal ids): no panic, no arithmetic overflow (dev profile with overflow checks = the stricter profile), floats finite, m == m.",
     "Trusts Kani/CBMC; counts above capacity are C15, the 391-entry container overflow C16, scanner termination C05, dispatch C14; msg1029 uses the from_utf8 reference stub.",
     BMC + " of every msgNNNN::decode on symbolic payloads; all Rust panic sites are solver-checked assertions", "3/C02")
 reg("C03", "model_checking",
@@ -72,7 +72,7 @@ reg("C11", "model_checking",
     "Trusts the standard model of floating-point arithmetic, the C07 contract and the translator (validated each run); counter-models are concretised and replayed natively before being reported.",
     MSMT + " (linear mixed integer/real arithmetic with explicit rounding-error variables)", "3/C11")
 reg("C12", "model_checking",
-    "Inductive step instead of history exploration: from EVERY 1029-byte builder state a build call first wipes to the fresh state (L1, solver); a fresh state gives the same output with the flag up or down (L2, solver); typed evidence with a dirty 96-byte window and symbolic messages incl. one that fails part-way. Histories of any length follow by induction (argument).",
+    "Inductive step instead of history exploration: from EVERY 1029-byte builder state a build call first wipes to the fresh state (L1, solver); a fresh state gives the same output with the flag up or down (L2, solver); the fresh state itself (solver). Thorough tier only (9-40 min each): a fresh builder whose first build fails after bits were written keeps the flag up, and typed evidence with a dirty 96-byte window and symbolic messages. Histories of any length follow by induction (argument).",
     "Needs the cfg-guarded hooks verif_from_raw/verif_raw; CRC arithmetic stubbed (equal buffers get equal checksums).",
     BMC + " of MessageBuilder::build_message from an arbitrary internal state (inductive invariant)", "3/C12")
 reg("C13", "model_checking",
@@ -88,7 +88,7 @@ reg("C15", "model_checking",
     "Trusts Kani/CBMC; element contents in long lists are defaults with a symbolic tag (content fidelity: C01/C08).",
     BMC + " of the list-bearing message codecs, one run per (type, n)", "3/C15")
 reg("C16", "model_checking",
-    "One entry fully symbolic; three entries on fixed satellite arrangements with symbolic signals and biases (regrouping, stability); all 2^14 bias patterns; one entry on every satellite id (count-field boundary); hostile 403-entry frame (capacity); 1230 with every subset/order of its four signals.",
+    "Quick tier: 1230 with concrete subsets/orders of its four signals and symbolic biases, unrecognised signals refused. Thorough tier (10-40 min per harness because of the 390-entry list): 1059/1065 with one entry on boundary satellite ids and any f32 bias, three entries on fixed satellite arrangements (regrouping, stability), all 2^14 bias patterns, one entry on every satellite id (count-field boundary), hostile 403-entry frame (capacity).",
     "Trusts Kani/CBMC and the SSR signal tables in spec.rs.",
     BMC + " of the three hand-written bias-list codecs", "3/C16")
 reg("C17", "model_checking",
